@@ -406,6 +406,39 @@ func runC15(c *eng.Ctx) {
 
 	c.Rule("GUARD", "kv{a table builder is abandoned only when it holds no key}", func() { abandonOnlyWhenNoKeys(c) })
 
+	// ---- 6b. the reader accepts every footer the builder can write: sections may be EMPTY (equal positions) --------------------------
+	c.Rule("GUARD", "kv/table.storeMMapReader.initialize{section positions non-strictly ordered}", func() {
+		f := c.Fn("kv/table.storeMMapReader.initialize")
+		facts := p.MustFacts(f)
+		isPos := func(_ string, v ssa.Value) bool {
+			if k, ok := eng.ConstInt(v); ok && k == 0 {
+				return true
+			}
+			return eng.DependsOn(v, func(x ssa.Value) bool {
+				cl, ok := x.(*ssa.Call)
+				if !ok {
+					return false
+				}
+				ks := strings.Join(p.CalleeKeys(cl), " ")
+				return strings.Contains(ks, "Uint32") || strings.Contains(ks, "builtin:len")
+			})
+		}
+		n := 0
+		for i, r := range eng.SuccessReturns(f) {
+			n++
+			fs := facts.At(r)
+			strict := facts.Find(fs, "lt", isPos, isPos)
+			det := ""
+			for _, ft := range strict {
+				det += "lt(" + p.Desc(ft.X) + ", " + p.Desc(ft.Y) + ") "
+			}
+			c.Check(len(strict) == 0, fmt.Sprintf("empty-sections-accepted[%d]", i), r, f,
+				"a table is accepted with 0 <= posOfOffsets <= posOfKeys <= footerStart: the entries block is empty when every value is empty, which the builder writes and closes without complaint; a strict ordering test rejects such a table as 'bad footer data'",
+				"strict ordering required on the way to a successful open: "+det)
+		}
+		c.Check(n > 0, "success-exit-found", nil, f, "initialize has a successful exit", "")
+	})
+
 	// ---- 7. merged iterator ------------------------------------------------------------------------------------------------------------------
 	c.Rule("PASS", "kv/table.mergedIterator.HasNext{heap re-established}", func() {
 		f := c.Fn("kv/table.mergedIterator.HasNext")
